@@ -19,7 +19,7 @@ CLAIMS = {
          "Decides: reserved-name checks dominate rendering and compilation on all paths; Context data is only mutated on private copies (API never hands out the shared dict); the lookup siblings agree on order (data, builtins); strict_undefined emission raises NameError and import namespaces precede the context. The scope analysis of _Identifiers itself is not decided.",
          "Python scoping semantics are not modelled", "4/C04"),
  "C05": ("typestate dataflow over the CFGs of reconstructed skeleton programs for every flag assignment (buffered x filtered x cached x callstack x in_def x decorator), with effect summaries derived from runtime.py",
-         "Decides for every template and every raise/return point: caller-frame, buffer and writer pairing of top-level defs, inline defs and calls with content; return convention per flag combination; nextcaller arm/disarm; agreement of the two def emitters and the cache wrapper; ParseFunc reads every ast.arguments field; mixed attribute values keep every non-empty piece in order; nested defs shadow top-level defs of the same name. Python's argument binding is not decided.",
+         "Decides for every template and every raise/return point: caller-frame, buffer and writer pairing of top-level defs, inline defs and calls with content; return convention per flag combination; nextcaller arm/disarm; agreement of the two def emitters and the cache wrapper; ParseFunc reads every ast.arguments field; mixed attribute values keep every non-empty piece in order; nested defs shadow top-level defs of the same name; defaults are aligned with the trailing positional parameters (no count of the parameter list is taken while it still holds the *args name); the def stub passes the body's locals under the condition under which they are created; no context manager swallows an exception by accident. Python's argument binding is not decided.",
          "covers what the generator can emit; user code is an opaque may-raise/return region", "4/C05"),
  "C06": ("emitted-skeleton guard inspection, who-may-write on def registries, sibling order comparison of __getattr__ implementations, provenance in _inherit_from",
          "Decides the compile-time sentences (duplicate/misplaced blocks rejected on every path) and the shape of dispatch (block guard, self-dispatch, lookup order callables->own->inherits in all namespace kinds, inherits/parent/local wiring). Dispatch results for arbitrary chains are not decided.",
@@ -40,7 +40,7 @@ CLAIMS = {
          "Decides: every embedded-Python parse and every raise of a Mako syntax/compile exception carries the owning node's source/line/pos/filename; only Mako exception classes are raised on the compile path; the line offset of each wrapped fragment equals minus the newlines prepended; scanners save the start position before scanning; all construction paths pass filename and source. The line value for every layout is not decided.",
          "regex match positions not modelled", "4/C11"),
  "C12": ("line-accounting pairing in PythonPrinter, start_source dominance in emitters, writer/reader index-base agreement for line maps, lexical region rule for warning translation",
-         "Decides: each stream write is matched by a line-counter update of the newlines written; emitters record a source line (>=1) before lines that can appear in traceback frames; full_line_map writer/readers agree on index base; every compile/exec/load of generated code lies inside the warning-translation region with the same identifier, and the hook is restored in finally. What RichTraceback prints for arbitrary chains is not decided.",
+         "Decides: each stream write is matched by a line-counter update of the newlines written; emitters record a source line (>=1) before lines that can appear in traceback frames; full_line_map writer/readers agree on index base; every compile/exec/load of generated code lies inside the warning-translation region with the same identifier, and the hook is restored in finally; RichTraceback tells template frames from ordinary ones by identity with None (a blank template line is a value), memoises per frame file name, and module-directory modules are registered under an absolute path. What RichTraceback prints for arbitrary chains is not decided.",
          "warnings filter state machine not modelled", "4/C12"),
  "C13": ("typestate dataflow over CFGs (with exceptional and return edges) of the skeleton programs of every construct and flag assignment; CFG pairing rule on runtime helpers; except-clause scan; write-effect scan",
          "Decides for every template, nesting depth and raise point that every stack push the generator can emit (buffer, caller frame, loop, nextcaller, writer binding) is released LIFO on every exit with no may-raise statement before a release, that partial buffers are not written on the exceptional path, that handlers re-raise the original exception, and that rendering stores nothing on the Template. Behaviour of user handlers/decorators/cache back ends is not decided.",
@@ -52,7 +52,7 @@ CLAIMS = {
          "Decides: temp file created in the destination directory, write < close < move(tmp, outputpath) on every path, outputpath written by nothing else; file-writing primitives only at listed sites; regeneration on exactly missing / older / magic mismatch, each followed by a load before use; module_writer receives (bytes, path) and is the only writer on its path; verify_directory's retry loop is bounded. Crash points inside OS calls are not decided (rename atomicity trusted).",
          "os.rename/shutil.move atomicity on one file system trusted", "4/C15"),
  "C16": ("lock pairing on CFG with exceptional edges, double-checked read inside the locked region, no-reentry via call graph, check-then-act lint on shared evicting caches, shared-state write scan of the render path",
-         "Decides structural necessary conditions: every acquire is released on all exits; the second-chance read and the store are inside the locked region; nothing reachable under the lock re-acquires it; no membership-test-then-subscript on evicting shared caches without KeyError handling; render-time writes go to per-render objects or allow-listed idempotent memos; LRU tolerates concurrent deletion. Interleavings are not decided.",
+         "Decides structural necessary conditions: every acquire is released on all exits; the second-chance read and the store are inside the locked region; nothing reachable under the lock re-acquires it; no membership-test-then-subscript on evicting shared caches without KeyError handling; render-time writes go to per-render objects or allow-listed idempotent memos; LRU tolerates concurrent deletion; no module-level instance of a new class keeps per-call state, per-render closures store nothing on captured objects, no module is taken out of sys.modules. Interleavings are not decided.",
          "schedules not enumerated (a model-checking question)", "4/C16"),
  "C17": ("name agreement between code generator and invalidate_*; skeleton check of the cache wrapper; dict-update order; guard dominance; identity-key taint",
          "Decides: cached callables are registered under the names invalidate_* use; the wrapper saves the original, calls _ctx_get_or_create(key, lambda: original(args), context, ..., __M_defname=name), writes once or returns when buffered, with the same convention as the wrapped callable at both emit sites; page cache_* args are overridden by the section's, template cache_args by call kwargs, timeout -> int; cache_enabled False bypasses the backend; Cache.id injectivity. At-most-once execution over histories is not decided.",
